@@ -117,7 +117,7 @@ def master(tier, seed):
     except HarnessError as e:
         harness.append(str(e))
     # report: one replay file per distinct minimised signature
-    paths, known_hits, seen = [], [], set()
+    paths, known_hits, seen, unreproduced = [], [], set(), []
     for rec in sorted(viol_recs, key=lambda r: r["index"]):
         sig = signature_of(rec["scenario"], rec["vclass"])
         key = json.dumps(sig, sort_keys=True)
@@ -137,7 +137,12 @@ def master(tier, seed):
         if rc == 1:
             paths.append(path)
         else:
-            harness.append(f"replay of {path} in a fresh interpreter did not reproduce (rc={rc}): {so[-300:]} {se[-300:]}")
+            # never reported as a violation; only fatal if nothing else reproduces (see driver.finish)
+            unreproduced.append(f"replay of {path} in a fresh interpreter did not reproduce (rc={rc}): {so[-200:]} {se[-200:]}")
+            try:
+                os.replace(path, path + ".unreproduced")
+            except OSError:
+                pass
     wall = time.monotonic() - t0
     stats = agg["stats"]
     faults = {k: v for k, v in sorted(stats.items()) if k.startswith("fault")}
@@ -173,4 +178,4 @@ def master(tier, seed):
         harness.append("no run was executed")
     print(f"C11 {tier}: runs={agg['runs']} ops={agg['ops']} states={agg['states']} violations_raw={agg['violations']} "
           f"reported={len(paths)} wall={wall:.1f}s")
-    return driver.finish(PROP, paths, known_hits, harness)
+    return driver.finish(PROP, paths, known_hits, harness, unreproduced)
